@@ -99,7 +99,7 @@ ESshut ==
   /\ Is("sshut") /\ KeepM
   /\ \/ Ev.n = Root /\ Terminated(cfg, S) /\ Same
      \/ /\ TidyDoneG(cfg, S, Ev.n) /\ S.cause[Ev.n] # "cancelled"
-        /\ S' = TidyDoneF(cfg, S, Ev.n)
+        /\ \E k \in TidyKs(cfg, S, Ev.n) : S' = TidyDoneF(cfg, S, Ev.n, k)
      \/ RelayG(cfg, S, Ev.n) /\ S' = RelayF(cfg, S, Ev.n)
 
 ESshutRet ==
@@ -109,6 +109,9 @@ ESshutRet ==
         /\ Ev.n # Root /\ ~Casting(cfg, S, Ev.n) /\ JustAfter("sshut", Ev.n)
         /\ S.sh[Ev.n] = "done" /\ Same
         /\ Ev.v = IF Kids(cfg, Ev.n) = {} THEN "true" ELSE "null"
+     \/ \* it had shut down before (a shutdown() issued before the run): nothing is sent
+        /\ Ev.n # Root /\ Over(S, Ev.n) /\ S.sres[Ev.n] = "skip" /\ JustAfter("sshut", Ev.n)
+        /\ Ev.v = "null" /\ Same
      \/ /\ ShutJoinG(cfg, S, Ev.n)
         /\ IF OwnShut(cfg, S, Ev.n) THEN S.cause[Ev.n] # "cancelled" ELSE S.sh[Ev.n] = "running"
         /\ \E k \in Culprits(cfg, S, Ev.n) : S' = ShutJoinF(cfg, S, Ev.n, k)
@@ -131,7 +134,7 @@ ERunEnd ==
 ERunExc ==
   /\ Is("run-exc") /\ Once("ran", Ev.n)
   /\ \/ /\ Ev.v = "cancelled" /\ TidyDoneG(cfg, S, Ev.n) /\ S.cause[Ev.n] = "cancelled"
-        /\ S' = TidyDoneF(cfg, S, Ev.n)
+        /\ S' = TidyDoneF(cfg, S, Ev.n, Ev.n)
      \/ /\ Ev.v = "cancelled" /\ Over(S, Ev.n) /\ S.st[Ev.n] = "cancelled" /\ S.te[Ev.n] = S.now
         /\ JustAfter("sshut-cancel", Ev.n) /\ Same
      \/ /\ Ev.v = "exc" /\ Over(S, Ev.n) /\ S.st[Ev.n] = "exc" /\ S.te[Ev.n] = S.now
@@ -216,17 +219,45 @@ ELeftover ==
   /\ Is("leftover") /\ KeepM /\ Same
   /\ Terminated(cfg, S) /\ Marked("top", Root) /\ Ev.i = 0
 
-Logged ==
-  /\ l' = l + 1
-  /\ \/ ERunBegin \/ EStart \/ EEnd \/ ERaise \/ ECancel \/ ERecancel \/ ECancelDone
-     \/ ESshut \/ ESshutRet \/ ESshutCancel \/ ERunEnd \/ ERunExc \/ EDiag
-     \/ EShut \/ EShutDone \/ EShutCancel \/ ETick \/ ESnap \/ ETop \/ ETopHang \/ ERes \/ ELeftover \/ EStall \/ EShutCancelDone \/ EUserCancel
+(* one named action per kind of event and per silent action, so that TLC's   *)
+(* coverage report says which actions the validated traces exercised       *)
+LRunBegin == UNCHANGED <<cfg, tid>> /\ l' = l + 1 /\ ERunBegin
+LStart == UNCHANGED <<cfg, tid>> /\ l' = l + 1 /\ EStart
+LEnd == UNCHANGED <<cfg, tid>> /\ l' = l + 1 /\ EEnd
+LRaise == UNCHANGED <<cfg, tid>> /\ l' = l + 1 /\ ERaise
+LCancel == UNCHANGED <<cfg, tid>> /\ l' = l + 1 /\ ECancel
+LRecancel == UNCHANGED <<cfg, tid>> /\ l' = l + 1 /\ ERecancel
+LCancelDone == UNCHANGED <<cfg, tid>> /\ l' = l + 1 /\ ECancelDone
+LSshut == UNCHANGED <<cfg, tid>> /\ l' = l + 1 /\ ESshut
+LSshutRet == UNCHANGED <<cfg, tid>> /\ l' = l + 1 /\ ESshutRet
+LSshutCancel == UNCHANGED <<cfg, tid>> /\ l' = l + 1 /\ ESshutCancel
+LRunEnd == UNCHANGED <<cfg, tid>> /\ l' = l + 1 /\ ERunEnd
+LRunExc == UNCHANGED <<cfg, tid>> /\ l' = l + 1 /\ ERunExc
+LDiag == UNCHANGED <<cfg, tid>> /\ l' = l + 1 /\ EDiag
+LShut == UNCHANGED <<cfg, tid>> /\ l' = l + 1 /\ EShut
+LShutDone == UNCHANGED <<cfg, tid>> /\ l' = l + 1 /\ EShutDone
+LShutCancel == UNCHANGED <<cfg, tid>> /\ l' = l + 1 /\ EShutCancel
+LTick == UNCHANGED <<cfg, tid>> /\ l' = l + 1 /\ ETick
+LSnap == UNCHANGED <<cfg, tid>> /\ l' = l + 1 /\ ESnap
+LTop == UNCHANGED <<cfg, tid>> /\ l' = l + 1 /\ ETop
+LTopHang == UNCHANGED <<cfg, tid>> /\ l' = l + 1 /\ ETopHang
+LRes == UNCHANGED <<cfg, tid>> /\ l' = l + 1 /\ ERes
+LLeftover == UNCHANGED <<cfg, tid>> /\ l' = l + 1 /\ ELeftover
+LStall == UNCHANGED <<cfg, tid>> /\ l' = l + 1 /\ EStall
+LShutCancelDone == UNCHANGED <<cfg, tid>> /\ l' = l + 1 /\ EShutCancelDone
+LUserCancel == UNCHANGED <<cfg, tid>> /\ l' = l + 1 /\ EUserCancel
+QProcess == UNCHANGED <<cfg, tid>> /\ l' = l /\ KeepM /\ Has /\ \E s \in Scheds(cfg) : Process(s)
+QTimeout == UNCHANGED <<cfg, tid>> /\ l' = l /\ KeepM /\ Has /\ \E s \in Scheds(cfg) : Timeout(s)
+QCancelProp == UNCHANGED <<cfg, tid>> /\ l' = l /\ KeepM /\ Has /\ \E s \in Scheds(cfg) : CancelProp(s)
+QShutExpire == UNCHANGED <<cfg, tid>> /\ l' = l /\ KeepM /\ Has /\ \E s \in Scheds(cfg) : ShutExpire(s)
+QShutCancelProp == UNCHANGED <<cfg, tid>> /\ l' = l /\ KeepM /\ Has /\ \E s \in Scheds(cfg) : ShutCancelProp(s)
 
-Silent ==
-  /\ l' = l /\ KeepM /\ Has
-  /\ \E s \in Scheds(cfg) : Process(s) \/ Timeout(s) \/ CancelProp(s) \/ ShutExpire(s) \/ ShutCancelProp(s)
+Logged == LRunBegin \/ LStart \/ LEnd \/ LRaise \/ LCancel \/ LRecancel \/ LCancelDone \/ LSshut \/ LSshutRet
+          \/ LSshutCancel \/ LRunEnd \/ LRunExc \/ LDiag \/ LShut \/ LShutDone \/ LShutCancel \/ LTick \/ LSnap
+          \/ LTop \/ LTopHang \/ LRes \/ LLeftover \/ LStall \/ LShutCancelDone \/ LUserCancel
+Silent == QProcess \/ QTimeout \/ QCancelProp \/ QShutExpire \/ QShutCancelProp
 
-TNext == UNCHANGED <<cfg, tid>> /\ (Logged \/ Silent)
+TNext == Logged \/ Silent
 TSpec == TInit /\ [][TNext]_tvars
 
 -----------------------------------------------------------------------------
